@@ -22,12 +22,14 @@ def request_bytes(tie_resources=False):
         refs += ["a.example.com/Thing", "b.example.com/Thing", "net.example.com/IpRange"]
     for i, r in enumerate(refs):
         fields.append(G.F(f"ref{i}", 10 + i, T.TYPE_STRING, resource_ref=r))
+    # strings formatted as UUID4 (AIP-4235): their mock values are printed into the generated tests and samples
+    fields.append(G.F("request_id", 30, T.TYPE_STRING, uuid4=True))
     G.add_message(fd, "Req", fields)
-    G.add_message(fd, "Resp", [G.F("x", 1, T.TYPE_STRING)])
+    G.add_message(fd, "Resp", [G.F("x", 1, T.TYPE_STRING), G.F("uid", 2, T.TYPE_STRING, uuid4=True)])
     for s in ("Lab", "Archive", "Zoo"):
         svc = G.add_service(fd, s)
         for m in ("Get", "List", "Purge"):
-            G.add_method(svc, m + s, ".acme.lab.v1.Req", ".acme.lab.v1.Resp", http=("get", "/v1/{name=%s/*}" % (s.lower() + m.lower())), signatures=["name,alpha"])
+            G.add_method(svc, m + s, ".acme.lab.v1.Req", ".acme.lab.v1.Resp", http=("get", "/v1/{name=%s/*}" % (s.lower() + m.lower())), signatures=["name,alpha", "name,request_id"])
         # several path variables in one binding (the implicit routing header lists them in template order)
         G.add_method(svc, "Locate" + s, ".acme.lab.v1.Req", ".acme.lab.v1.Resp", http=("get", "/v1/x/{name}/zones/{alpha}/racks/{delta}/units/{ref0}/%s" % s.lower()))
     req = plugin_pb2.CodeGeneratorRequest(parameter="transport=grpc+rest,metadata")
@@ -36,6 +38,12 @@ def request_bytes(tie_resources=False):
     req.proto_file.extend(G.dep_files((iam_policy_pb2, locations_pb2)))
     req.proto_file.append(fd)
     req.file_to_generate.append(fd.name)
+    # five message-only sub-packages below the versioned package: their files are appended to the response per sub-package
+    for sub in ("alpha", "beta", "gamma", "delta", "epsilon"):
+        sf = G.new_file(f"acme/lab/v1/{sub}/{sub}_types.proto", f"acme.lab.v1.{sub}")
+        G.add_message(sf, sub.capitalize() + "Info", [G.F("name", 1, T.TYPE_STRING), G.F("n", 2, T.TYPE_INT32)])
+        req.proto_file.append(sf)
+        req.file_to_generate.append(sf.name)
     return req.SerializeToString()
 
 
@@ -98,6 +106,9 @@ def compare(tie, seeds):
             a = {f.name: f.content for f in base.file}
             b = {f.name: f.content for f in other.file}
             diff |= {n for n in set(a) | set(b) if a.get(n) != b.get(n)}
+            if not diff and [f.name for f in base.file] != [f.name for f in other.file]:
+                diff.add("(contents equal) ORDER of the files in the response differs, e.g. position %d: %s vs %s" % next(
+                    (i, x.name, y.name) for i, (x, y) in enumerate(zip(base.file, other.file)) if x.name != y.name))
         return [{"seeds": digests, "differing_files": sorted(diff)[:8]}]
     finally:
         import shutil
